@@ -13,8 +13,11 @@ FUNCTIONS = ["PlotlySankeyPlotter._get_links_dict", "PlotlySankeyPlotter._append
              "PlotlyArrayPlotter.add_line", "PyplotArrayPlotter.add_line"]
 ASSUMPTIONS = ["plotly stores the sequences it is given (observed at figure.data)", "matplotlib Axes.plot / scatter / fill_between are replaced by a recorder of their arguments (pyplot converts to float)"]
 OUTSIDE = ["rendering, colours, layout, legends", "arrays with more than 3 dimensions"]
+VARIANTS = 'falsy items selected by slices; plotter settings assigned after construction; colliding display names'
 BOUNDS = {"quick": dict(sankey="sysenv + 2 processes, 1..3 flows, slice per dimension absent / one item, exclusions, colour split by each dimension", arrays="1-3 dims, every assignment of dimensions to subplot / line / x roles, by name and by letter, x_array none / same dims / subset in other order, 3 chart types, plotly and pyplot"),
           "thorough": dict(sankey="sysenv + 3 processes, up to 4 flows", arrays="as quick, lengths (2,3,2) and (3,2,2)")}
+for _t in BOUNDS.values():
+    _t["variants_beyond_the_base_enumeration"] = VARIANTS
 OPTS = {"quick": dict(shadow_every=10, max_paths=50), "thorough": dict(shadow_every=40, max_paths=50)}
 NAMES = {"t": "Time", "a": "Alpha", "b": "Beta"}
 
